@@ -27,6 +27,9 @@ RUNS = {
     "C08": {"quick": 480, "thorough": 20000},
     "C09": {"quick": 480, "thorough": 30000},
     "C10": {"quick": 480, "thorough": 30000},
+    "C11": {"quick": 4000, "thorough": 400000},
+    "C14": {"quick": 480, "thorough": 30000},
+    "C15": {"quick": 480, "thorough": 30000},
     "C05": {"quick": 480, "thorough": 30000},
     "C06": {"quick": 480, "thorough": 30000},
     "C07": {"quick": 480, "thorough": 30000},
